@@ -44,7 +44,7 @@ impl RecTracer {
     }
 }
 
-pub const LOG_CAP: usize = 150_000;
+pub const LOG_CAP: usize = 2_000_000;
 
 impl Tracer for RecTracer {
     fn trace(&self, msg: &str) {
